@@ -144,9 +144,19 @@ func (c EngineCfg) toJSON() map[string]any {
 			flowretry = true
 		}
 	}
-	return map[string]any{"flowretry": flowretry, "nodes": nodes, "top": c.Top, "conns": conns, "ctx0": ctx0, "runs": c.Runs, "acts": acts,
+	return map[string]any{"flowretry": flowretry, "zerobudget": c.zeroBudget(), "nodes": nodes, "top": c.Top, "conns": conns, "ctx0": ctx0, "runs": c.Runs, "acts": acts,
 		"outs": outs, "cancel": c.Cancel, "nilstart": c.Nilstart, "ctxkind": c.CtxKind, "variant": c.Variant,
 		"genseed": c.GenSeed, "genmode": c.GenMode, "ovkey": ov, "ovphase": c.OvPhase, "ovkind": c.OvKind}
+}
+
+// zeroBudget: some node's retry budget is below one
+func (c EngineCfg) zeroBudget() bool {
+	for _, n := range c.Nodes {
+		if n.Retry && n.N < 1 {
+			return true
+		}
+	}
+	return false
 }
 
 // concrete Go kinds for an abstract (retry, fb, func) triple
@@ -822,8 +832,8 @@ func (s *scnRun) node(id int, depth int) flyt.Node {
 			start = s.node(nc.Start, depth+1)
 		}
 		f := flyt.NewFlow(start)
-		if nc.N > 1 {
-			// a flow is a retryable node: its own budget re-executes the whole sub-flow
+		if nc.N != 1 {
+			// a flow is a retryable node: its own budget re-executes the whole sub-flow (and a budget below one skips it)
 			flyt.WithMaxRetries(nc.N)(f.BaseNode)
 		}
 		n = f
@@ -948,6 +958,9 @@ func runEngineScenarioOpt(cfg EngineCfg, script Script, viaFlowRun bool) ([]Even
 		case <-finished:
 		case <-time.After(6 * time.Second):
 			// a run that spins without ever calling back (e.g. looping over a flow that fails silently)
+			if cfg.zeroBudget() {
+				s.log(Event{"ev": "spin"}) // a flow with a budget below one on a cycle: stopped by cancelling its context
+			}
 			s.cancel()
 			select {
 			case <-finished:
